@@ -2,6 +2,7 @@ package props
 
 import (
 	"fmt"
+	"sort"
 
 	"gopkg.in/typ.v4/maps"
 	"verifharness/internal/core"
@@ -198,7 +199,35 @@ func (br *biRun) check(l *biLive, op string) bool {
 		}
 	}
 	seen := map[bpair]int{}
-	l.b.Range(func(k int, v string) bool { seen[bpair{k, v}]++; return true })
+	// in a quarter of the observations one callback makes nested read-only calls on
+	// the same Bimap (a nested Range included); the outer Range must not notice
+	nestAt, nestMsg, visited := -1, "", 0
+	if n := len(l.m.ps); n > 0 && c.R.Chance(1, 4) {
+		nestAt = c.R.Intn(n)
+	}
+	l.b.Range(func(k int, v string) bool {
+		if visited == nestAt {
+			c.Count("nested_readonly_calls_in_range_callback", 1)
+			inner := map[bpair]int{}
+			l.b.Range(func(k int, v string) bool { inner[bpair{k, v}]++; return true })
+			if len(inner) != len(l.m.ps) {
+				nestMsg = fmt.Sprintf("nested Range visited %v, model %v", inner, l.m.ps)
+			}
+			if k2, ok := l.b.GetReverse(v); !ok || k2 != k || l.b.Len() != len(l.m.ps) {
+				nestMsg = fmt.Sprintf("nested GetReverse(%q)=(%d,%v) Len=%d inside the callback for pair (%d,%q)", v, k2, ok, l.b.Len(), k, v)
+			}
+			if cl := l.b.Clone(); cl.Len() != len(l.m.ps) {
+				nestMsg = fmt.Sprintf("nested Clone has %d pairs, model %d", cl.Len(), len(l.m.ps))
+			}
+		}
+		visited++
+		seen[bpair{k, v}]++
+		return true
+	})
+	if nestMsg != "" {
+		br.fail(op+":nested-read-in-Range", nestMsg)
+		return false
+	}
 	if len(seen) != len(l.m.ps) {
 		br.fail(op+":Range", fmt.Sprintf("Range visited %v, model %v", seen, l.m.ps))
 		return false
@@ -376,7 +405,50 @@ func c11big(c *core.Ctx) {
 		return
 	}
 	for phase := 0; phase < 5; phase++ {
-		switch r.Intn(5) {
+		switch r.Intn(6) {
+		case 5:
+			// shrink a formerly big Bimap to a handful of pairs by removals, then Add pairs
+			// that evict exactly those survivors (same key, same value, or both at once)
+			keep := r.Range(0, 3)
+			for k := range fw {
+				if len(fw) <= keep {
+					break
+				}
+				v := fw[k]
+				delete(fw, k)
+				delete(rv, v)
+				if r.Bool() {
+					b.RemoveForward(k)
+				} else {
+					b.RemoveReverse(v)
+				}
+			}
+			hist = append(hist, fmt.Sprintf("shrink to %d pairs, then evicting Adds", len(fw)))
+			if !sweep(b, fw, rv, "shrink") {
+				return
+			}
+			var ks []int
+			for k := range fw {
+				ks = append(ks, k)
+			}
+			sort.Ints(ks)
+			var ak int
+			var av string
+			switch {
+			case len(ks) >= 2 && r.Bool():
+				ak, av = ks[0], fw[ks[1]] // evicts two pairs
+			case len(ks) >= 1 && r.Bool():
+				ak, av = ks[0], "fresh"
+			case len(ks) >= 1:
+				ak, av = n+7, fw[ks[0]]
+			default:
+				ak, av = 1, "fresh"
+			}
+			if p, pv := core.Catch(func() { add(ak, av) }); p {
+				fail("Add:panic", fmt.Sprintf("Add(%d,%q) on a Bimap shrunk to %d pairs panicked: %v", ak, av, len(ks), pv))
+				return
+			}
+			c.Count("big_shrunk_then_evicting_add", 1)
 		case 0:
 			hist = append(hist, "Clear")
 			b.Clear()
